@@ -111,7 +111,9 @@ namespace ST
         {
             m_chars = is_reffed() ? move.m_chars : m_data;
             traits_t::copy(m_data, move.m_data, local_length);
+            move.m_chars = move.m_data;
             move.m_size = 0;
+            traits_t::assign(move.m_data, local_length, 0);
         }
 
         buffer(const char_T *data, size_t size)
